@@ -48,6 +48,43 @@ def hx(x):
     return "nan" if x != x else ("inf" if x == math.inf else ("-inf" if x == -math.inf else x.hex()))
 
 
+def apply_edits(las, edits):
+    """in-memory edits of a recipe (before the first write: `edits`; between two writes: `mid_edits`)"""
+    import numpy as np
+    from lasio import HeaderItem
+    for e in edits:
+        op = e[0]
+        if op == "index_set":
+            las.curves[0].data[e[1]] = fl(e[2])
+        elif op == "index_replace":
+            las.curves[0].data = np.array([fl(x) for x in e[1]], dtype=float)
+        elif op == "index_scale":
+            las.curves[0].data *= fl(e[1])
+        elif op == "curve_set":
+            las.curves[e[1]].data[e[2]] = fl(e[3])
+        elif op == "well_value":
+            las.well[e[1]].value = lo.dec(e[2])
+        elif op == "well_unit":
+            las.well[e[1]].unit = e[2]
+        elif op == "curve_unit":
+            las.curves[e[1]].unit = e[2]
+        elif op == "curve_descr":
+            las.curves[e[1]].descr = e[2]
+        elif op == "append_item":
+            las.sections[e[1]].append(HeaderItem(e[2][0], e[2][1], lo.dec(e[2][2]), e[2][3]))
+        elif op == "delete_item":
+            del las.sections[e[1]][e[2]]
+        elif op == "append_curve":
+            las.append_curve(e[1], np.array([fl(x) for x in e[3]], dtype=float), unit=e[2])
+        elif op == "delete_curve":
+            las.delete_curve(ix=e[1])
+        elif op == "version_value":
+            las.version[e[1]].value = lo.dec(e[2])
+        else:
+            raise ValueError(op)
+
+
+
 def build(recipe, info=None):
     """the object of a recipe; None when the recipe cannot be built (an edit does not apply).  `info["at_read"]` receives the harness's
     own copy of the index taken straight after read() (None for an object built from scratch): the oracle decides 'the index was
@@ -71,36 +108,7 @@ def build(recipe, info=None):
                 except Exception:
                     info["at_read"] = None
                     info["no_index"] = True
-        for e in recipe.get("edits", []):
-            op = e[0]
-            if op == "index_set":
-                las.curves[0].data[e[1]] = fl(e[2])
-            elif op == "index_replace":
-                las.curves[0].data = np.array([fl(x) for x in e[1]], dtype=float)
-            elif op == "index_scale":
-                las.curves[0].data *= fl(e[1])
-            elif op == "curve_set":
-                las.curves[e[1]].data[e[2]] = fl(e[3])
-            elif op == "well_value":
-                las.well[e[1]].value = lo.dec(e[2])
-            elif op == "well_unit":
-                las.well[e[1]].unit = e[2]
-            elif op == "curve_unit":
-                las.curves[e[1]].unit = e[2]
-            elif op == "curve_descr":
-                las.curves[e[1]].descr = e[2]
-            elif op == "append_item":
-                las.sections[e[1]].append(HeaderItem(e[2][0], e[2][1], lo.dec(e[2][2]), e[2][3]))
-            elif op == "delete_item":
-                del las.sections[e[1]][e[2]]
-            elif op == "append_curve":
-                las.append_curve(e[1], np.array([fl(x) for x in e[3]], dtype=float), unit=e[2])
-            elif op == "delete_curve":
-                las.delete_curve(ix=e[1])
-            elif op == "version_value":
-                las.version[e[1]].value = lo.dec(e[2])
-            else:
-                raise ValueError(op)
+        apply_edits(las, recipe.get("edits", []))
         return las
     except Exception:
         return None
@@ -484,6 +492,16 @@ def history(run, recipe, cfgs, tags, pend, nontriv=None):
              tags=list(tags) + ["refresh=%s" % cond, "writes=%d" % len(cfgs), "version=%s" % cfgs[0]["version"], "wrap=%s" % cfgs[0]["wrap"]])
     prev = None            # (cfg, text, snapshot after)
     for w, cfg in enumerate(cfgs):
+        mid = (recipe.get("mid_edits") or {}).get(str(w))
+        if mid:
+            # edits between two writes (arrays are edited in place): the next write must state what the object holds NOW
+            try:
+                apply_edits(las, mid)
+            except Exception:
+                run.dist["mid-edit-not-applicable"] += 1
+                break
+            prev = None
+            cond = refresh_condition(las, info)
         before = fullsnap(las)
         why = []
         mo = model_obj(las, why) if run.model is not None else None
@@ -865,7 +883,13 @@ def run(run):
             run.dist["own-output-unreadable"] += 1
             continue
         recipe["edits"] = gen_edits(rng, sh[0], sh[1], 0.5)
-        history(run, recipe, gen_cfgs(rng), ["own-output", "edited" if recipe["edits"] else "as-read"], pend)
+        cfgs = gen_cfgs(rng)
+        if len(cfgs) >= 2 and rng.random() < 0.5:
+            # in-place edits of the arrays between two writes (after the first write has looked at every array)
+            mid = [e for e in gen_edits(rng, sh[0], sh[1], 0.7) if e[0] in ("index_set", "index_scale", "curve_set")]
+            if mid:
+                recipe["mid_edits"] = {str(rng.randrange(1, len(cfgs))): mid}
+        history(run, recipe, cfgs, ["own-output", "edited" if recipe["edits"] else "as-read"] + (["mid-edits"] if recipe.get("mid_edits") else []), pend)
     # the example corpus
     files = corpus()
     rng.shuffle(files)
